@@ -151,7 +151,7 @@ MatchEvent(mm, oe, se, s) ==
                           ELSE IF \E v \in 1..Len(oe.depth) : v <= Len(mm.vms) /\ oe.depth[v] # Len(mm.vms[v].scopes) + 1
                           THEN Fail(s4, "scope stack depth differs") ELSE s4
                     s6 == IF ~s5.ok THEN s5
-                          ELSE IF {oe.looked[i] : i \in 1..Len(oe.looked)} # se.looked THEN Fail(s5, "names requested from the host differ") ELSE s5
+                          ELSE IF oe.looked # <<"*">> /\ {oe.looked[i] : i \in 1..Len(oe.looked)} # se.looked THEN Fail(s5, "names requested from the host differ") ELSE s5
                 IN s6
 
 RECURSIVE MatchEvents(_, _, _, _, _)
@@ -198,9 +198,21 @@ LitOk(lit) == LET d == DecFromLiteral(lit.text) IN
               lit.v.t = "dec" /\ lit.v.sign = d.sign /\ lit.v.digs = d.digs /\ lit.v.exp = d.exp
 LiteralsP(m2) == \A i \in 1..Len(m2.results) :
                   "lits" \in DOMAIN Case.calls[i] => \A j \in 1..Len(Case.calls[i].lits) : LitOk(Case.calls[i].lits[j])
+\* the interactive loop (smartquery/repl.py, SQRepl): what it prints after a line is repr(result) for a result other than
+\* None, repr(exception) for an Exception, nothing otherwise
+PrintedP(m1, m2) ==
+    (Len(m2.results) = Len(m1.results) + 1 /\ "printed" \in DOMAIN Case.calls[Len(m2.results)]) =>
+    LET r == m2.results[Len(m2.results)].outcome
+        pr == Case.calls[Len(m2.results)].printed IN
+    IF r.t = "ok"
+    THEN IF r.v.t = "none" THEN pr.n = 0
+         ELSE LET s == ToRepr(m2.heap, r.v) IN IsBadStr(s) \/ pr.text = s \o <<10>>
+    ELSE pr.n = 1 /\ (r.e.exc = "any" \/ pr.head = r.e.name)       \* "any": the text does not parse (SQGrammar says which error)
 PropViolation(m1, m2) ==
-    IF ~Input.props THEN ""
+    \* the first two do not depend on which deviations of the evaluator are switched on
+    IF ~PrintedP(m1, m2) THEN "REPL Printed: the loop did not print repr(result) / repr(exception) for this line"
     ELSE IF ~LiteralsP(m2) THEN "C08 LiteralExact: a number token does not carry its written decimal value"
+    ELSE IF ~Input.props THEN ""
     ELSE IF ~ListedP(m2) THEN "C18 LookedListed: a name requested from the host is not reported by list_names"
     ELSE IF ~BudgetInvP(m2) THEN "C01 BudgetInv: a VM record was charged beyond its budget"
     ELSE IF ~LimitExactP(m1, m2) THEN "C01 LimitExact"
